@@ -188,10 +188,13 @@ func (m *MemoryInstance) Grow(_ context.Context, delta uint32) (result uint32, o
 	}
 
 	// If exceeds the max of memory size, we push -1 according to the spec.
-	newPages := currentPages + delta
-	if newPages > m.Max {
+	// The sum is taken in 64 bits: currentPages + delta wraps in uint32 for delta >= 2^32 - currentPages
+	// (memory.grow -1), and the wrapped value used to SHRINK the memory.
+	if uint64(currentPages)+uint64(delta) > uint64(m.Max) {
 		return 0, false
-	} else if newPages > m.Cap { // grow the memory.
+	}
+	newPages := currentPages + delta
+	if newPages > m.Cap { // grow the memory.
 		m.Buffer = append(m.Buffer, make([]byte, MemoryPagesToBytesNum(delta))...)
 		m.Cap = newPages
 		return currentPages, true
